@@ -792,6 +792,14 @@ def all_short_names(version):
     return {k.rsplit("/", 1)[-1].lower() for k in xml_tags(version)}
 
 
+def clashing_names(a, b):
+    """names that two bundled versions share when loaded under one prefix, decided from the XML files alone"""
+    partnered = [v for v in (a, b) if _with_standard(v)]
+    if len(partnered) == 2 and _with_standard(a) == _with_standard(b):
+        return own_short_names(a) & own_short_names(b)      # the shared standard part is the same partner
+    return all_short_names(a) & all_short_names(b)
+
+
 def _attempt(spec):
     from hed.schema import load_schema_version
     from hed.errors.exceptions import HedFileError
@@ -826,11 +834,7 @@ def run_refusals(w, count=True):
                   ("score_1.1.0", "score_2.0.0"), ("score_1.0.0", "score_1.1.0"), ("testlib_1.0.2", "testlib_2.0.0"),
                   ("score_2.0.0", "8.3.0"), ("testlib_1.0.2", "8.1.0"), ("8.0.0", "score_1.0.0")]
     for a, b in candidates:
-        partnered = [v for v in (a, b) if _with_standard(v)]
-        if len(partnered) == 2 and _with_standard(a) == _with_standard(b):
-            clash = own_short_names(a) & own_short_names(b)      # the shared standard part is the same partner
-        else:
-            clash = all_short_names(a) & all_short_names(b)
+        clash = clashing_names(a, b)
         if not clash:
             continue
         for p in ("", "x:"):
@@ -891,6 +895,261 @@ def _with_standard(version):
     return ET.parse(_xml_path(version)).getroot().attrib.get("withStandard")
 
 
+
+# ------------------------------------------------------------------------------------------------------------------
+# group constructions with repeated members (the same object / the same version / the same library, in every list position)
+# ------------------------------------------------------------------------------------------------------------------
+DUP_VERSIONS = ["8.3.0", "score_2.0.0", "8.2.0"]          # a standard schema, the library partnered with it, another standard schema
+DUP_PREFIXES = ["", "x:", "y:"]
+
+
+def _spec_prefix(m):
+    return m.partition(":")[0] + ":" if ":" in m else ""
+
+
+def _spec_version(m):
+    return m.partition(":")[2] if ":" in m else m
+
+
+def _group_verdict(build):
+    from hed.errors.exceptions import HedFileError
+    try:
+        return ("loaded", build())
+    except HedFileError as e:
+        return ("refused", str(e.code))
+    except Exception as e:  # noqa
+        return ("exception", repr(e)[:200])
+
+
+def run_group_constructions(w, count=True, only=None):
+    """every list of 2 and 3 members over {version} x {prefix} (+ separately parsed copies for the constructor), repeats included:
+    HedSchemaGroup(list of objects) - load_schema_version gives the IDENTICAL object for the same text - and
+    load_schema_version(list of texts).  From the statement: refused iff two members share a prefix (the same library twice under one
+    prefix, or two schemas with clashing names under one prefix); accepted when all prefixes differ (also the same library under two
+    prefixes)."""
+    import itertools
+    import json as _json
+    from hed.schema import HedSchemaGroup, load_schema, load_schema_version
+    members = [p + v for v in DUP_VERSIONS for p in DUP_PREFIXES]
+    objs = {m: load(m) for m in members}
+    # separately parsed copies: equal content, a different object
+    objs["copy of 8.3.0"] = load_schema(_xml_path("8.3.0"))
+    objs["copy of x:8.3.0"] = load_schema(_xml_path("8.3.0"), schema_namespace="x")
+    prefix_of = {m: (_spec_prefix(m[len("copy of "):]) if m.startswith("copy of ") else _spec_prefix(m)) for m in objs}
+    n = 0
+    n_slow = 0
+    for size in (2, 3):
+        # ---- the constructor, given objects
+        for combo in itertools.product(list(objs), repeat=size):
+            if only is not None and (only["group_construction"] != "HedSchemaGroup" or list(combo) != only["members"]):
+                continue
+            inp = {"group_construction": "HedSchemaGroup", "members": list(combo),
+                   "same_object_twice": len(set(combo)) < len(combo)}
+            prefixes = [prefix_of[m] for m in combo]
+            shared = len(set(prefixes)) < len(prefixes)
+            n += 1
+            if count:
+                w.case(key=("group-construction", "HedSchemaGroup", combo), nontrivial=True,
+                       sample={"HedSchemaGroup of": list(combo), "expected": "refused" if shared else "accepted"})
+            r = _group_verdict(lambda: HedSchemaGroup([objs[m] for m in combo]))
+            if shared:
+                w.check(r[0] == "refused", "C13.refuse.duplicate_prefix_in_group", inp, r if r[0] != "loaded" else "accepted",
+                        "HedFileError: two members share the prefix %r" % [p for p in prefixes if prefixes.count(p) > 1][0])
+            else:
+                ok = r[0] == "loaded" and all(r[1].schema_for_namespace(prefix_of[m]) is objs[m] for m in combo)
+                w.check(ok, "C13.load.offline_pairing_loads", inp, r if r[0] != "loaded" else "a member does not answer for its prefix",
+                        "a group in which each member answers for its prefix")
+        # ---- load_schema_version, given version texts
+        for ci, combo in enumerate(itertools.product(members, repeat=size)):
+            as_json = ci % 5 == 2
+            if only is not None and (only["group_construction"] != "load_schema_version" or list(combo) != only["members"]
+                                     or as_json != only.get("as_json_text", False)):
+                continue
+            inp = {"group_construction": "load_schema_version", "members": list(combo), "as_json_text": as_json}
+            by_prefix = {}
+            for m in combo:
+                by_prefix.setdefault(_spec_prefix(m), []).append(_spec_version(m))
+            twice = [vs for vs in by_prefix.values() if len(set(vs)) < len(vs)]
+            clash = [(a, b) for vs in by_prefix.values() for a, b in itertools.combinations(dict.fromkeys(vs), 2)]
+            if not twice and clash:
+                # two different schemas under one prefix: every such attempt parses files again; a spread sample of them
+                n_slow += 1
+                if only is None and n_slow % (37 if w.quick else 5) != 1:
+                    continue
+                if not all(clashing_names(a, b) for a, b in clash):
+                    continue
+            n += 1
+            if count:
+                w.case(key=("group-construction", "load_schema_version", combo, as_json), nontrivial=True,
+                       sample={"load": list(combo), "expected": "refused" if twice or clash else "accepted"})
+            arg = _json.dumps(list(combo)) if as_json else list(combo)
+            r = _group_verdict(lambda: load_schema_version(arg))
+            if twice:
+                w.check(r[0] == "refused", "C13.refuse.same_library_twice", inp, r if r[0] != "loaded" else "accepted", "HedFileError")
+            elif clash:
+                w.check(r[0] == "refused", "C13.refuse.clashing_names_under_one_prefix",
+                        dict(inp, clashing_names=sorted(clashing_names(*clash[0]))[:5]), r if r[0] != "loaded" else "accepted",
+                        "HedFileError")
+            else:
+                ok = r[0] == "loaded"
+                if ok and len(combo) > 1:
+                    ok = all(r[1].schema_for_namespace(_spec_prefix(m)) is not None and
+                             r[1].schema_for_namespace(_spec_prefix(m)).version_number == _spec_version(m).rpartition("_")[2]
+                             and r[1].schema_for_namespace(_spec_prefix(m)).library == _spec_version(m).rpartition("_")[0]
+                             for m in combo)
+                w.check(ok, "C13.load.offline_pairing_loads", inp, r if r[0] != "loaded" else "a member does not answer for its prefix",
+                        "a group in which each version answers for its prefix")
+    # ---- the same library twice inside ONE version text (comma form), alone and next to another member
+    comma = [p + v + "," + v for v in DUP_VERSIONS for p in ("", "x:")]
+    for k, text in enumerate(comma if not w.quick or only is not None else comma[1::2]):
+        for spec in (text, [text], ["y:8.2.0", text]) if not w.quick or only is not None else ((text, [text], ["y:8.2.0", text])[k % 3],):
+            if only is not None and (only["group_construction"] != "load_schema_version" or only["members"] != spec):
+                continue
+            n += 1
+            if count:
+                w.case(key=("group-construction", "comma", repr(spec)), nontrivial=True)
+            r = _group_verdict(lambda: load_schema_version(spec))
+            w.check(r[0] == "refused", "C13.refuse.same_library_twice",
+                    {"group_construction": "load_schema_version", "members": spec}, r if r[0] != "loaded" else "accepted", "HedFileError")
+    return n
+
+
+# ------------------------------------------------------------------------------------------------------------------
+# the prefix given at load time, for every schema format the package reads
+# ------------------------------------------------------------------------------------------------------------------
+FORMAT_SCHEMAS = ["testlib_2.0.0", "8.3.0", "score_2.0.0", "8.2.0", "testlib_3.0.0", "score_1.1.0"]      # quick: the first two
+FORMAT_GOOD_NS = ["tl", "tl:"]
+FORMAT_BAD_NS = ["t1", "t-l", "t1:", "a_b", "tl::", "t l", "1", "t.l"]
+FORMAT_LOADERS = ["xml file", "mediawiki file", "tsv directory", "tsv file name", "xml text", "mediawiki text", "dataframes"]
+
+
+class _Rng:
+    def __init__(self, seed):
+        import random
+        self.rng = random.Random(seed)
+
+
+def format_loaders(version, merged, folder):
+    """save the bundled schema in every format -> {loader name: function(namespace) -> schema}"""
+    from hed.schema import load_schema, from_string, from_dataframes
+    src = load(version)
+    tag = "HED_%s_%s" % (version, "merged" if merged else "unmerged")
+    xml, wiki, tsv_dir = os.path.join(folder, tag + ".xml"), os.path.join(folder, tag + ".mediawiki"), os.path.join(folder, tag)
+    src.save_as_xml(xml, save_merged=merged)
+    src.save_as_mediawiki(wiki, save_merged=merged)
+    src.save_as_dataframes(os.path.join(tsv_dir, tag + ".tsv"), save_merged=merged)
+    xml_text = src.get_as_xml_string(save_merged=merged)
+    wiki_text = src.get_as_mediawiki_string(save_merged=merged)
+    frames = src.get_as_dataframes(save_merged=merged)
+    return {
+        "xml file": lambda ns: load_schema(xml, schema_namespace=ns),
+        "mediawiki file": lambda ns: load_schema(wiki, schema_namespace=ns),
+        "tsv directory": lambda ns: load_schema(tsv_dir, schema_namespace=ns),
+        "tsv file name": lambda ns: load_schema(os.path.join(tsv_dir, tag + ".tsv"), schema_namespace=ns),
+        "xml text": lambda ns: from_string(xml_text, ".xml", schema_namespace=ns),
+        "mediawiki text": lambda ns: from_string(wiki_text, ".mediawiki", schema_namespace=ns),
+        "dataframes": lambda ns: from_dataframes({k: df.copy() for k, df in frames.items()}, schema_namespace=ns),
+    }
+
+
+def run_formats(w, version, merged, folder, n_tags, count=True, only=None):
+    from hed.schema import HedSchemaGroup
+    from hed.errors.exceptions import HedFileError
+    inp0 = {"loader_format": None, "schema": version, "saved_merged": merged}
+    try:
+        alone = load(version)                                  # the same schema without prefix
+        std_v = _with_standard(version) or version
+        std = load(std_v)
+        loaders = format_loaders(version, merged, folder)
+    except Exception as e:  # noqa
+        w.fail("C13.load.offline_pairing_loads", inp0, "EXC " + repr(e)[:300], "the bundled schema is saved in every format")
+        return 0
+    shim = _Rng(w.seed * 1000 + FORMAT_SCHEMAS.index(version))
+    texts = annotations(shim, alone, n_tags)
+    texts = texts[::3] if w.quick else texts
+    std_texts = annotations(shim, std, 2)[::4]
+    p = "tl:"
+    n = 0
+    expected = {}
+    for li, name in enumerate(FORMAT_LOADERS):
+        if only is not None and only["loader_format"] != name:
+            continue
+        fn = loaders[name]
+        # ---- a prefix that is not alphabetic is refused, whatever the format
+        bads = FORMAT_BAD_NS if not w.quick or only is not None else [FORMAT_BAD_NS[(2 * li + k) % len(FORMAT_BAD_NS)] for k in (0, 1)]
+        for bad in bads:
+            if only is not None and only.get("namespace_given") != bad:
+                continue
+            inp = dict(inp0, loader_format=name, namespace_given=bad)
+            n += 1
+            if count:
+                w.case(key=("format-bad", version, merged, name, bad), nontrivial=True)
+            try:
+                obj = fn(bad)
+                r = ("loaded", repr(getattr(obj, "_namespace", None)))
+            except HedFileError as e:
+                r = ("refused", str(e.code))
+            except Exception as e:  # noqa
+                r = ("exception", repr(e)[:200])
+            w.check(r[0] == "refused", "C13.prefix.not_alphabetic_is_error", inp, r, "HedFileError")
+        for gi, given in enumerate(FORMAT_GOOD_NS):
+            if only is not None and only.get("namespace_given") != given:
+                continue
+            inp1 = dict(inp0, loader_format=name, namespace_given=given)
+            try:
+                obj = fn(given)
+                G = HedSchemaGroup([std, obj] if (li + gi) % 2 == 0 else [obj, std])
+            except Exception as e:  # noqa
+                w.fail("C13.load.offline_pairing_loads", inp1, "EXC " + repr(e)[:300],
+                       "loads with the prefix and can be grouped with the unprefixed standard schema %s" % std_v)
+                n += 1
+                continue
+            for ti, A in enumerate(texts if only is None or only.get("annotation") is None else [only["annotation"]]):
+                inp = dict(inp1, namespace=p, annotation=A)
+                PA = prefix_all(A, p)
+                if A not in expected:
+                    expected[A] = observe(A, alone)
+                exp, eforms = expected[A]
+                for target, sch in (("the loaded object", obj), ("group with unprefixed %s" % std_v, G)):
+                    if sch is G and ti % 3 and only is None:
+                        continue
+                    if only is not None and only.get("validated_against", target) != target:
+                        continue
+                    got, gforms = observe(PA, sch, strip=p)
+                    n += 1
+                    if count:
+                        w.case(key=("format", version, merged, name, given, target, A), nontrivial=True,
+                               sample={"format": name, "schema_namespace": given, "annotation": PA})
+                    clause = "C13.prefixed.judged_as_alone"
+                    if got != exp and _without_style(got) == _without_style(exp):
+                        clause = "C13.prefixed.capitalisation_warning_reads_prefix"
+                    w.check(got == exp, clause, dict(inp, validated_against=target), got, exp, prefixed_text=PA)
+                    if got == exp and not isinstance(got, str):
+                        w.check(gforms == eforms, "C13.forms.same_tag_forms_modulo_prefix", dict(inp, validated_against=target),
+                                gforms, eforms, prefixed_text=PA)
+                # the unprefixed text: its tags have a prefix ("") that the loaded object does not answer for
+                if re.search(r"[^,()\s]", A) and not isinstance(exp, str) and (ti % 2 == 0 or only is not None):
+                    bgot, _ = observe(A, obj)
+                    n += 1
+                    if count:
+                        w.case(key=("format-unprefixed", version, merged, name, given, A), nontrivial=True)
+                    w.check(isinstance(bgot, list) and any(b[1] == 1 for b in bgot), "C13.prefix.not_loaded_is_error",
+                            dict(inp, namespace="", validated_against="the loaded object", prefixed_text=A), bgot,
+                            "an error-severity issue: the object answers for %r only" % p)
+            # unprefixed annotations in the group are judged by the unprefixed standard schema alone
+            for B in (std_texts if only is None or only.get("annotation") is None else [only["annotation"]]):
+                if only is not None and only.get("namespace") != "":
+                    continue
+                got, gforms = observe(B, G)
+                exp, eforms = observe(B, std)
+                n += 1
+                if count:
+                    w.case(key=("format-group-unprefixed", version, merged, name, given, B), nontrivial=True)
+                w.check(got == exp, "C13.unprefixed.judged_as_alone",
+                        dict(inp1, namespace="", annotation=B, validated_against="group with unprefixed %s" % std_v), got, exp)
+    return n
+
+
 # ------------------------------------------------------------------------------------------------------------------
 def run(w: Workload):
     w.rule = ("for each offline schema group (standard, library, prefixed and unprefixed members, merged libraries under one "
@@ -940,12 +1199,42 @@ def run(w: Workload):
     w.part("refusals and controls", cases=n, bound="same library twice (4 versions x 3 prefixes x 2 list shapes), clashing pairs "
            "decided from the XML (x 2 prefixes), group constructor, non-alphabetic prefixes at load, 5 controls",
            exhaustive=True)
+    # (the two parts below draw from their own seeded generator, so the samples of the parts above do not move)
+    n = run_group_constructions(w)
+    w.part("group constructions with repeated members", cases=n,
+           bound="every list of 2 and of 3 members, repeats included (first / middle / last, adjacent or not), over {8.3.0, score_2.0.0, "
+                 "8.2.0} x {no prefix, x:, y:}: HedSchemaGroup of the objects (the same text gives the identical object; + two "
+                 "separately parsed copies of 8.3.0) and load_schema_version of the texts (every 5th as JSON text; of the lists "
+                 "that only put two DIFFERENT schemas under one prefix every %s is tried); + the same version twice "
+                 "inside one comma-separated text" % ("37th" if w.quick else "5th"), exhaustive=False)
+    folder = tempfile.mkdtemp(prefix="c13f_")
+    try:
+        todo = [(v, True) for v in (FORMAT_SCHEMAS[:2] if w.quick else FORMAT_SCHEMAS)]
+        if not w.quick:
+            todo += [(v, False) for v in FORMAT_SCHEMAS if _with_standard(v)]
+        for version, merged in todo:
+            n = run_formats(w, version, merged, folder, 3 if w.quick else 8)
+            w.part("prefix given at load time: %s saved %s" % (version, "merged" if merged else "unmerged"), cases=n,
+                   bound="%d loaders (%s) x schema_namespace in %s: every%s annotation over %d sampled standard + %d library tags "
+                         "(+ the composed ones) prefixed against the loaded object (every third also against its group with the "
+                         "unprefixed standard schema, both list orders) = the unprefixed annotation against the bundled schema; every second "
+                         "unprefixed against the loaded object is an error; unprefixed standard annotations in the group; %s "
+                         "non-alphabetic namespaces per loader are refused"
+                         % (len(FORMAT_LOADERS), ", ".join(FORMAT_LOADERS), FORMAT_GOOD_NS, " third" if w.quick else "",
+                            3 if w.quick else 8, 3 if w.quick else 8, "2 of the %d" % len(FORMAT_BAD_NS) if w.quick else "all %d" % len(FORMAT_BAD_NS)),
+                   exhaustive=False)
+    finally:
+        shutil.rmtree(folder, ignore_errors=True)
     w.assumptions += [
         "the 'schema of p alone' is load_schema_version of the same version text without the prefix",
         "judged exactly = same ordered list of (code, severity, named tag text, selected fragment), both without the prefix",
         "own tags of a library are the XML nodes carrying the inLibrary attribute; names clash when two XML files share a "
         "(case-folded) tag name outside a common partnered standard part",
         "only schemas bundled with the package are used (no network)",
+        "'the same library twice' / 'two schemas under one prefix' is read per prefix: the same version under two DIFFERENT prefixes "
+        "is a legitimate group (each prefix has its own schema)",
+        "prefix at load time: 'the same schema without prefix' is the bundled schema loaded by version; the saved copies are taken to "
+        "be faithful (C05)",
     ]
     w.not_covered += [
         "history part: cases where the two schemas split or spell a tag differently are skipped, not judged (re-using one parsed object across "
@@ -958,13 +1247,24 @@ def run(w: Workload):
         "only, and only for the library member (a group advertises the required tags of all members, so the standard member of "
         "such a group is not compared); pairings that straddle generation 8.3.0; mediawiki / tsv unmerged files; a second "
         "library merged into an already used schema object (load_schema(..., schema=used))",
-        "loader internals (base2schema merge) beyond the resulting vocabulary; mediawiki/tsv sources",
+        "loader internals (base2schema merge) beyond the resulting vocabulary",
+        "group constructions: lists longer than 3; schemas read from a URL",
     ]
 
 
 def replay(w: Workload, case: dict):
     inp = case["input"]
-    if inp.get("config_history"):
+    if inp.get("group_construction"):
+        run_group_constructions(w, count=False, only=inp)
+    elif inp.get("loader_format") or "saved_merged" in inp:
+        import shutil
+        import tempfile
+        folder = tempfile.mkdtemp(prefix="c13f_")
+        try:
+            run_formats(w, inp["schema"], inp["saved_merged"], folder, 3, count=False, only=inp if inp.get("loader_format") else None)
+        finally:
+            shutil.rmtree(folder, ignore_errors=True)
+    elif inp.get("config_history"):
         import shutil
         import tempfile
         folder = tempfile.mkdtemp(prefix="c13_")
